@@ -153,7 +153,7 @@ def classify(job, verdict):
     names = [CATX[i][0] for i in idxs]
     if any(n.startswith("sk") for n in names):
         return "C13/engine-silently-wrong/coincident-collinear-edges/" + op + "/" + "+".join(names)
-    if len(idxs) >= 2 and any(unsimplifiable(CAT[i]) for i in idxs):
+    if len(idxs) >= 2 and any(unsimplifiable(CATX[i]) for i in idxs):
         # the engine returns a wrong path without reporting failure; picosvg passes it on
         return "C13/engine-silently-wrong/operand-skia-cannot-simplify"
     return "C13/" + verdict.split(":", 1)[1].split("@")[0] + "/" + op + "/" + "+".join(sorted(set(names)))
